@@ -123,6 +123,12 @@ def m_result_is(ex, m, args, tys, st, fn):
     return [(st, r if m.group(1) == "is_ok" else tm.not_(r))]
 
 
+@model(r"^(?:std::result::)?Result::<.*>::unwrap_or$")
+def m_result_unwrap_or(ex, m, args, tys, st, fn):
+    t = _concrete_tag(args[0], "Result::unwrap_or")
+    return [(st, args[0].pay[0][0] if t == 0 else args[1])]
+
+
 @model(r"^(?:std::option::)?Option::<.*>::unwrap_or$")
 def m_option_unwrap_or(ex, m, args, tys, st, fn):
     t = _concrete_tag(args[0], "Option::unwrap_or")
